@@ -1576,6 +1576,11 @@ impl DtlsInner {
         ctx: &mut HandshakeContext,
         is_client: bool,
     ) -> Result<()> {
+        // ServerHelloDone is a server-to-client message: a server must not answer it.
+        if !is_client {
+            return Ok(());
+        }
+
         if ctx.session_keys.is_some() {
             return Ok(());
         }
